@@ -456,6 +456,21 @@ func runConc(t *testing.T, rc *RunCtx, prop string) {
 		drainKeys = []int{start, start + size - 1, big.Entries[size/2].Acct}
 		rc.Stats.Inc("bulk_runs", 1)
 	}
+	// One run in eight (not the bulk ones): every key is held twice, by an account of each of two wallets, and half of the
+	// entries reach their key through the second wallet.  Slashing protection is per key, whichever account names it.
+	dup := !bulk && ch.Pick(8, 0) == 7
+	if dup {
+		pop = DupPopulation(t)
+		for _, o := range ops {
+			for i := range o.Entries {
+				if o.Entries[i].Acct >= 0 && o.Entries[i].Acct < 4 && ch.Pick(2, 0) == 1 {
+					o.Entries[i].Acct += 4
+					o.Entries[i].ByKey = false
+				}
+			}
+		}
+		rc.Stats.Inc("runs_with_keys_held_by_two_wallets", 1)
+	}
 	if drainKeys == nil {
 		for k := 0; k < nKeys; k++ {
 			drainKeys = append(drainKeys, k)
@@ -601,6 +616,11 @@ func runConc(t *testing.T, rc *RunCtx, prop string) {
 	w.s.Direct(func() { export, err = w.inst.Export() })
 	if err != nil {
 		rc.Violate(prop, "export-failed", err.Error(), w.s.Step)
+		return
+	}
+	if dup {
+		// The sequential model is per account; here two accounts share a record.  These runs are judged by the ledger of
+		// released signatures (above) alone.
 		return
 	}
 	if len(ops) > 12 {
